@@ -110,7 +110,7 @@ NumBin(op, x, y) ==
                    ELSE LET q == FloorQ(x.n * y.d, x.d * y.n)
                         IN Mk(ResT(x, y), x.n * y.d - q * y.n * x.d, x.d * y.d)
     [] op = "**" ->
-         IF y.d # 1 THEN Opaque                                                \* fractional exponent: libm / complex
+         IF y.d # 1 THEN (IF x.n = 0 /\ y.n < 0 THEN ZDE ELSE Opaque)            \* fractional exponent: libm / complex
          ELSE IF y.n >= 0
               THEN IF y.n > 24 THEN Opaque
                    ELSE LET pn == IPow(x.n, y.n)  pd == IPow(x.d, y.n)
@@ -135,8 +135,10 @@ NumBin(op, x, y) ==
     [] op = "!=" -> Bo(~Same(x, y))
 
 (* operands are evaluated left to right: the first exception wins; anything that is not a number is CPython's business *)
+IsNaN(x) == x.t = "nan"
 PyBin(op, x, y) ==
   IF IsRaise(x) THEN x ELSE IF IsRaise(y) THEN y
+  ELSE IF ((IsNaN(x) /\ (IsNum(y) \/ IsNaN(y))) \/ (IsNaN(y) /\ IsNum(x))) /\ op \in {"&", "|", "^", "<<", ">>", "@"} THEN TE   \* NaN is a float
   ELSE IF ~(IsNum(x) /\ IsNum(y)) THEN Opaque
   ELSE NumBin(op, x, y)
 
